@@ -100,7 +100,7 @@ class FastHierarchyAnalyzer(HierarchyAnalyzerBase):
         def _get_graph() -> Tuple[Tuple[int, ...], DSGType]:
             graph = self.adsg
             if len(opt_idx_try) == 0:
-                return graph.copy()
+                return tuple(), graph.copy()
 
             # Generate graph
             taken_sel_opt = [X_INACTIVE_VALUE for _ in range(len(opt_idx_try))]
@@ -215,6 +215,9 @@ class FastHierarchyAnalyzer(HierarchyAnalyzerBase):
                 else:
                     yield tuple(next_values)
 
+        if len(opt_idx) == 0:
+            yield tuple()
+            return
         yield from _iter_neighbor_next()
 
     def get_opt_idx(self, opt_idx: List[int], mask: np.ndarray = None, is_fixed: List[bool] = None,
